@@ -119,7 +119,7 @@ pub fn run_check(ctx: &Ctx) {
     ctx.assume("the schedule of tantivy's indexing threads is sampled by repetition, CPU pinning and background load, not enumerated");
     let qs = query_set(ctx.tier, ctx.seed);
     let queries: Vec<String> = qs.iter().map(|q| q.0.clone()).collect();
-    let work = PathBuf::from(format!("{}/build/xdg/C14-{}", crate::runner::VERIF, std::process::id()));
+    let work = PathBuf::from(format!("{}/build/xdg/C14-{}", crate::runner::verif_root(), std::process::id()));
     let _ = std::fs::remove_dir_all(&work);
     std::fs::create_dir_all(&work).unwrap();
     let qfile = work.join("queries.txt");
